@@ -22,6 +22,7 @@ Q == /\ Is("q") /\ l' = l + 1
                      x \in {p \in pubs : \E s \in {"L", "H"} : Count(got(s), p.data) > 1}}
             \cup {<<"C29", "a message was handed to a node that had no subscription when it was published", bi>> :
                      x \in {p \in pubs : \E s \in {"L", "H"} \ p.exp : Count(got(s), p.data) > 0}}
+            \cup (IF E.opens > 1 THEN {<<"C29", "the pubsub stream of one link was opened more than once by the same node", bi>>} ELSE {})
             \cup {<<"C27", "a subscription was handed a message that was not published, or with the wrong sender", bi>> :
                      x \in {s \in {"L", "H"} : \E i \in 1..Len(got(s)) : ~got(s)[i].auth \/ ~\E p \in pubs : p.data = got(s)[i].data /\ p.from = got(s)[i].from}}
      /\ UNCHANGED <<bi, pubs>>
